@@ -37,10 +37,12 @@ ASSUMPTIONS = [
 FLOOR = {"quick": 200, "thorough": 4000}
 
 DIRS = ["src", "lib", "app", "core", "docs", "a", "b", "pkg", "gen", "util", "tests", "test", "build", "dist", "node_modules", "venv", "_build",
-        ".git", ".hidden", ".cache", "Tests", "builder", "a.b"]
+        ".git", ".hidden", ".cache", ".storybook", ".husky", ".a", "Tests", "builder", "a.b"]
 ORDINARY = ["src", "lib", "app", "core", "docs", "a", "b", "pkg", "gen", "util", "Tests", "builder", "a.b"]
 STEMS = ["main", "util", "index", "mod", "x", "a", "setup", "gen", "test", "build", ".secret", ".env", "dist", "main", "util"]
 EXTS = list(G.LANGUAGE_OF_EXT) + G.UNSUPPORTED_EXT
+# whole file names Pygments maps without an extension (build files are Python to Pygments) and well-known unsupported ones
+WHOLE_NAMES = ["BUILD", "WORKSPACE", "SConstruct", "SConscript", "BUCK", "README", "LICENSE", "Dockerfile", "Gemfile", "CMakeLists.txt"]
 
 
 @st.composite
@@ -55,6 +57,8 @@ def trees(draw):
         stem = draw(st.sampled_from(STEMS))
         ext = draw(st.sampled_from(EXTS + ["py", "js", "c", "java"]))
         name = f"{stem}.{ext}" if ext else stem
+        if draw(st.integers(0, 9)) == 0:
+            name = draw(st.sampled_from(WHOLE_NAMES))
         path = "/".join(parts + [name])
         if path in files or path in dirs or any("/".join(parts[:k]) in files for k in range(1, len(parts) + 1)):
             continue
